@@ -21,7 +21,7 @@ TABLE = {
 RAISING = ["sys-A", "b", "T-b-S"]       # get_data raises for these ids
 FS_ROWS = [[k, v, {"none": 0, "id": 1, "raise": 2}[r[0]], r[1] if r[0] == "id" else ""] for (k, v), r in TABLE.items()]
 
-ALPHABET = ["/", "a", "b", "pre-", "-suf", "x", "%2f", "%2F", "%41", "?q", "%00", "\0", "A", "."]
+ALPHABET = ["/", "a", "b", "pre-", "-suf", "x", "%2f", "%2F", "%41", "?q", "%00", "\0", "A", ".", "%25"]
 
 # request_path shapes: (request_path, placeholder or None for the default "...", needs lookup)
 SHAPES_PLAIN = ["/", "/a", "/a/b", "/a/", "a", "", "//a", "/a//b"]
@@ -64,7 +64,7 @@ def base_requests(cfg):
     """requests that fit the configured path: placeholder replaced by sample values, plus extra paths"""
     rp = cfg["rpath"]
     ph = fileh.PH_DEFAULT if cfg["ph"] is None else cfg["ph"]
-    values = ["a", "A", "%41", "b", "x", "ab", "", "a/b", "a%2fb", "pre-a-suf", "ba", "aba", "."]
+    values = ["a", "A", "%41", "b", "x", "ab", "", "a/b", "a%2fb", "pre-a-suf", "ba", "aba", ".", "%2541", "%252f"]
     extras = ["", "/a", "/b", "/bb/a", "//a", "/", "/a/", "?q", "/a?q", "/%41"]
     outs = []
     if cfg["key"] and ph and ph in rp:
@@ -194,7 +194,10 @@ class C06(Check):
         if cls == fileh.CONTENT and template:
             try:
                 d = json.loads(body.decode("utf-8"))
-                tc = [d["keys"], [d["id"]] if "id" in d else [], [d["data"]] if "data" in d else [], d["uri"]]
+                def val(x):
+                    return x if isinstance(x, str) else "?" + repr(x)
+                tc = [[val(k) for k in d["keys"]], [val(d["id"])] if "id" in d else [],
+                      [val(d["data"])] if "data" in d else [], val(d["uri"])]
             except Exception:
                 tc = [["?unparsable"], [], [], ""]
         return [[list(x) for x in src.log], cls, tc]
